@@ -5,6 +5,7 @@ go 1.24.2
 require (
 	github.com/datastax/cql-proxy v0.0.0
 	github.com/datastax/go-cassandra-native-protocol v0.0.0-20220706104457-5e8aad05cf90
+	github.com/pierrec/lz4/v4 v4.0.3
 	go.uber.org/zap v1.17.0
 	golang.org/x/tools v0.29.0
 )
@@ -17,7 +18,6 @@ require (
 	github.com/golang/snappy v0.0.3 // indirect
 	github.com/google/uuid v1.3.0 // indirect
 	github.com/hashicorp/golang-lru v0.5.4 // indirect
-	github.com/pierrec/lz4/v4 v4.0.3 // indirect
 	github.com/pkg/errors v0.9.1 // indirect
 	go.uber.org/atomic v1.8.0 // indirect
 	go.uber.org/multierr v1.7.0 // indirect
